@@ -245,10 +245,26 @@ def variant_selection_obligations(repo, chk, rule, suffix=""):
     if shape_ok and cases:
         none_c = [c for t, c in cases if t == "None"]
         live_c = [c for t, c in cases if t == "[cap for cap, count in self.captures.items() if count > 0]"]
-        ok = len(cases) == 2 and len(none_c) == 1 and len(live_c) == 1 and none_c[0] == {"self.instrument_count == 0"} and live_c[0] == {"self.instrument_count != 0"}
+        # None (the base code) when nothing is active -- or when the base itself is the statically tooled, fully instrumented function
+        static = "self.tset.base_is_tooled"
+        zero_or_static = [{"self.instrument_count == 0 or " + static}, {static + " or self.instrument_count == 0"}]
+        live_want = [{"self.instrument_count != 0", "not " + static}]
+        ok = len(cases) == 2 and len(none_c) == 1 and len(live_c) == 1 and (
+            none_c[0] == {"self.instrument_count == 0"} and live_c[0] == {"self.instrument_count != 0"} or none_c[0] in zero_or_static and live_c[0] in live_want)
+        keeps_static = len(none_c) == 1 and none_c[0] in zero_or_static
         why = f"cases of the key: {[(t, sorted(c)) for t, c in cases]}"
+    else:
+        keeps_static = False
     chk.ob(rule, "transform.StackedTransforms.get:none-iff-count-zero" + suffix, ok, get.where,
-           "variant key is None exactly when no probe is active and otherwise every capture element with a positive count: " + why)
+           "variant key is None exactly when no probe is active (or the base is the statically tooled function) and otherwise every capture element with a positive count: " + why)
+    sb_ = repo.func("transform.TransformSet._set_base")
+    flag = [norm(n.value) for n in ast.walk(sb_.node) if isinstance(n, ast.Assign) and any(norm(t) == "self.base_is_tooled" for t in n.targets)]
+    p_ = sb_.node.args.args[1].arg
+    chk.ob(rule, "transform.StackedTransforms.get:a-statically-tooled-function-keeps-its-full-instrumentation" + suffix,
+           keeps_static and flag == [f"getattr({p_}, '__ptera_info__', None) is not None"], get.where,
+           "a function tooled with @tooled / tooled.inplace reports every variable; activating a probe on it must not swap in a variant that only reports the probe's own "
+           "variables (an overlay active on the same function would silently lose every other event): the base code is kept whenever the base is tooled "
+           f"(flag set in _set_base from the base function's __ptera_info__: {flag})")
     sb = repo.func("transform.TransformSet._set_base")
     chk.ob(rule, "transform.TransformSet._set_base:base-under-None" + suffix, facts_of(sb).has(f"self._register(None, {sb.node.args.args[1].arg})", exactly=[]), sb.where,
            "the untouched function (its original code object) is what is registered under key None")
